@@ -649,6 +649,15 @@ func oracleReturns(sc *jScenario, tr *jTrace) (out []jv) {
 // for the publish whose Put failed, and nothing else.
 func oraclePublishReturns(tr *jTrace) (out []jv) {
 	v := buildView(tr)
+	// a copy the replayer handed back together with an error is not what was published
+	for _, st := range tr.Subs {
+		for _, c := range st.Calls {
+			if c.Op == "send" && strings.HasPrefix(c.ID, "ghost-") {
+				out = append(out, jvf([]string{"replayer_copy_delivered_despite_put_error"}, "subscriber %s was sent the replayer's copy (ID %q) of a message whose Put returned an error; the published message is what is delivered", st.Spec.Name, c.ID))
+				break
+			}
+		}
+	}
 	for _, p := range tr.Pubs {
 		if !p.Returned {
 			continue
